@@ -13,8 +13,6 @@ Definition swap_nth (l : list val) (i j : nat) : list val :=
 Definition try_w {A B} (m : M A) (h : result A -> wr -> M B) : M B := fun s =>
   let o := m s in let o2 := h (res o) (w o) (post o) in mkOut (res o2) (post o2) (wapp (w o) (w o2)).
 
-Definition set_failed (m : msg) : M unit := fun s =>
-  let t := ts s in mkOut (Ok tt) (with_ts s (mkT (Some m) (cleanups t) (ctx t) (cleaning t))) wnil.
 Definition failOnError (loc : site) : M unit := fun s =>
   match failed (ts s) with
   | Some m => mkOut (Err (XStop m loc)) s wnil
@@ -31,47 +29,53 @@ Section Interp.
   Fixpoint cleanup_loop (fuel : nat) (last : option exn) : M (option exn) :=
     match fuel with
     | O => throw XFuel
-    | S f => fun s =>
-        let t := ts s in
+    | S f =>
+        t <- get_ts ;;
         match cleanups t with
-        | [] => mkOut (Ok last) s wnil
+        | [] => ret last
         | (id, c) :: rest =>
-            (_ <- put_ts (mkT (failed t) rest (ctx t) true) ;;
-             _ <- emit_u (URun id) ;;
-             try_ (crun c) (fun r =>
-               match r with
-               | Err XFuel => throw XFuel
-               | Err e => cleanup_loop f (Some e)
-               | Ok _ => cleanup_loop f last
-               end)) s
+            _ <- upd_cleanup (fun t => mkT (failed t) rest (ctx t) true) ;;
+            _ <- emit_u (URun id) ;;
+            try_ (crun c) (fun r =>
+              match r with
+              | Err XFuel => throw XFuel
+              | Err e =>
+                  (* a cleanup that ran out of data and is followed by more work: replay-unfaithful *)
+                  _ <- (match e with XInvalid m => if internal_msg m then mark_dirty else ret tt | _ => ret tt end) ;;
+                  cleanup_loop f (Some e)
+              | Ok _ => cleanup_loop f last
+              end)
         end
     end.
-  Definition cleanup : M (option exn) := fun s =>
-    let t := ts s in
-    (_ <- match ctx t with
-          | Some c => _ <- emit_u (UCtxCancel c) ;; put_ts (mkT (failed t) (cleanups t) None true)
-          | None => put_ts (mkT (failed t) (cleanups t) None true)
-          end ;;
-     r <- cleanup_loop LF None ;;
-     t' <- get_ts ;;
-     _ <- put_ts (mkT (failed t') (cleanups t') (ctx t') false) ;;
-     ret r) s.
+  Definition cleanup : M (option exn) :=
+    t <- get_ts ;;
+    _ <- (if ctx t then emit_u UCtxCancel else ret tt) ;;
+    _ <- upd_cleanup (fun t => mkT (failed t) (cleanups t) false true) ;;
+    r <- cleanup_loop LF None ;;
+    _ <- upd_cleanup (fun t => mkT (failed t) (cleanups t) (ctx t) false) ;;
+    ret r.
 
   (* ---- customGen.maybeValue: fresh inner T on the same stream; only invalidData is swallowed;
      the inner T's cleanup runs last; non-fatal failures are forwarded to the parent T ---- *)
+  Definition custom_handler (r : result val) : M (option val) :=
+    match r with
+    | Err XFuel => throw XFuel
+    | _ =>
+        _ <- emit_u (UCustomEnd (match r with Ok _ => 0 | Err _ => 1 end)%nat) ;;
+        c <- cleanup ;;
+        match c, r with
+        | Some e, Err (XInvalid m) => _ <- (if internal_msg m then mark_dirty else ret tt) ;; throw e
+        | Some e, _ => throw e                       (* a panic raised during cleanup wins *)
+        | None, Ok v => ret (Some v)
+        | None, Err (XInvalid _) => ret None
+        | None, Err e => throw e
+        end
+    end.
+  Definition custom_inner (body : M val) : M (option val) :=
+    _ <- emit_u UCustomBegin ;; try_ body custom_handler.
   Definition custom_att (body : M val) : M (option val) := fun s =>
     let outer := ts s in
-    let o :=
-      (_ <- emit_u UCustomBegin ;;
-       try_ body (fun r =>
-         _ <- emit_u (UCustomEnd (match r with Ok _ => 0 | Err _ => 1 end)%nat) ;;
-         c <- cleanup ;;
-         match c, r with
-         | Some e, _ => throw e                       (* a panic raised during cleanup wins *)
-         | None, Ok v => ret (Some v)
-         | None, Err (XInvalid _) => ret None
-         | None, Err e => throw e
-         end)) (with_ts s fresh_t) in
+    let o := custom_inner body (with_ts s fresh_t) in
     let inner := ts (post o) in
     let outer' := match failed inner with
                   | Some m => mkT (Some m) (cleanups outer) (ctx outer) (cleaning outer)
@@ -102,6 +106,53 @@ Section Interp.
 
   (* runAction's three ways to end, seen from executeAction *)
   Inductive actres := ADone (s : val) | ARejected | ASkipped.
+
+  (* runAction: the action, then failOnError; how it ended is logged before failOnError *)
+  Definition run_action (id : nat) (run_act : nat -> val -> M val) (i : nat) (s : val) : M actres :=
+    try_w (try_w (run_act i s) (fun r wa =>
+             _ <- emit_u (UActEnd i (match r with
+                                     | Ok _ => 0
+                                     | Err _ => if Nat.eqb (nd wa) 0 then 1 else 2 end)%nat) ;;
+             match r with
+             | Ok s' => _ <- failOnError (SRepeatAction id) ;; ret s'
+             | Err e => throw e
+             end))
+          (fun r wa =>
+             match r with
+             | Ok s' => ret (ADone s')
+             | Err (XInvalid m) =>
+                 if Nat.eqb (nd wa) 0
+                 then (* the try stays in the recording and is replayed: that is only
+                         faithful when the skip was the action's own decision *)
+                      _ <- (if internal_msg m then mark_dirty else ret tt) ;; ret ASkipped
+                 else ret ARejected
+             | Err e => throw e
+             end).
+  (* executeAction: up to validActionTries tries; a try that skipped before drawing is retried *)
+  Fixpoint exec_action (id nacts : nat) (run_act : nat -> val -> M val) (tries : nat) (s : val) : M (option val) :=
+    match tries with
+    | O => throw (XStop MNoValidActions (SNoValid id))
+    | S tr' =>
+        r <- group false (
+               i <- group true (genIndex geom LF nacts true) ;;
+               _ <- emit_u (UAct i) ;;
+               run_action id run_act i s) ;;
+        match r with
+        | ADone s' => ret (Some s')
+        | ARejected => ret None
+        | ASkipped => exec_action id nacts run_act tr' s
+        end
+    end.
+  Definition repeat_step (id nacts : nat) (chk : val -> M unit) (run_act : nat -> val -> M val) (s : val) : M (option val) :=
+    r <- exec_action id nacts run_act c_validActionTries s ;;
+    match r with
+    | Some s' => _ <- chk s' ;; _ <- failOnError (SRepeatCheck id) ;; ret (Some s')
+    | None => ret None
+    end.
+  Definition run_repeat (id : nat) (K : N) (nacts : nat) (chk : val -> M unit) (run_act : nat -> val -> M val) (s0 : val) : M val :=
+    _ <- chk s0 ;;
+    _ <- failOnError (SRepeatInit id) ;;
+    rep_loop LF 0 maxInt K (repeat_step id nacts chk run_act) 0 0 false s0.
 
   Fixpoint run_g (g : gexp) : M val :=
     match g with
@@ -143,77 +194,34 @@ Section Interp.
     | PFail kind id m k =>
         _ <- emit_u (USignal kind m id) ;;
         match kind with
-        | KError => _ <- set_failed m ;; _ <- mark_nf ;; run_p k
-        | KFatal => _ <- set_failed m ;; _ <- mark_nf ;; throw (XStop m (SUser id))
+        | KError => _ <- set_failed m ;; run_p k
+        | KFatal => _ <- set_failed m ;; throw (XStop m (SUser id))
         | KPanic => throw (XPanic m (SUser id))
         end
     | PSkip m => _ <- emit_u (USkip m) ;; throw (XInvalid m)
     | PCleanup id f k =>
-        t <- get_ts ;;
-        _ <- put_ts (mkT (failed t) ((id, f) :: cleanups t) (ctx t) (cleaning t)) ;;
-        _ <- mark_reg ;; _ <- emit_u (UReg id) ;;
+        _ <- upd_reg (fun t => mkT (failed t) ((id, f) :: cleanups t) (ctx t) (cleaning t)) ;;
+        _ <- emit_u (UReg id) ;;
         run_p k
-    | PContext k => fun s =>
-        let t := ts s in
-        match ctx t with
-        | Some c => (_ <- emit_u (UCtxSeen c true) ;; run_p (k true)) s
-        | None =>
-            if cleaning t then (_ <- emit_u (UCtxSeen 0 false) ;; run_p (k false)) s
-            else
-              let c := S (nctx s) in
-              (_ <- emit_u (UCtxNew c) ;; _ <- emit_u (UCtxSeen c true) ;; _ <- mark_reg ;; run_p (k true))
-                (mkSt (src s) (mkT (failed t) (cleanups t) (Some c) (cleaning t)) c)
-        end
-    | PFailed k => fun s =>
-        let b := match failed (ts s) with Some _ => true | None => false end in
-        (_ <- emit_u (UFailedSeen b) ;; run_p (k b)) s
+    | PContext k =>
+        t <- get_ts ;;
+        if ctx t then _ <- emit_u (UCtxSeen true) ;; run_p (k true)
+        else if cleaning t then _ <- emit_u (UCtxSeen false) ;; run_p (k false)
+        else _ <- emit_u UCtxNew ;; _ <- emit_u (UCtxSeen true) ;;
+             _ <- upd_reg (fun t => mkT (failed t) (cleanups t) true (cleaning t)) ;;
+             run_p (k true)
+    | PFailed k =>
+        t <- get_ts ;;
+        let b := match failed t with Some _ => true | None => false end in
+        _ <- emit_u (UFailedSeen b) ;; run_p (k b)
     | PLog n k => _ <- emit_u (ULog n) ;; run_p k
-    | PRepeat id K s0 check nacts act k =>
+    | PRepeat id K s0 haschk check nacts act k =>
         match nacts with
         | O => run_p (k s0)
         | S _ =>
-            let chk (s : val) : M unit :=
-              match check with
-              | Some c => _ <- emit_u UChk ;; _ <- run_p (c s) ;; ret tt
-              | None => ret tt
-              end in
-            (* executeAction: up to validActionTries tries; a try that skipped before drawing is retried *)
-            let exec_action :=
-              (fix exec (tries : nat) (s : val) : M (option val) :=
-                 match tries with
-                 | O => throw (XStop MNoValidActions (SNoValid id))
-                 | S tr' =>
-                     r <- group false (
-                            i <- group true (genIndex geom LF nacts true) ;;
-                            _ <- emit_u (UAct i) ;;
-                            try_w (try_w (run_p (act i s)) (fun r wa =>
-                                            _ <- emit_u (UActEnd i (match r with
-                                                                    | Ok _ => 0
-                                                                    | Err _ => if Nat.eqb (nd wa) 0 then 1 else 2 end)%nat) ;;
-                                            match r with
-                                            | Ok s' => _ <- failOnError (SRepeatAction id) ;; ret s'
-                                            | Err e => throw e
-                                            end))
-                                  (fun r wa =>
-                                     match r with
-                                     | Ok s' => ret (ADone s')
-                                     | Err (XInvalid _) => if Nat.eqb (nd wa) 0 then ret ASkipped else ret ARejected
-                                     | Err e => throw e
-                                     end)) ;;
-                     match r with
-                     | ADone s' => ret (Some s')
-                     | ARejected => ret None
-                     | ASkipped => exec tr' s
-                     end
-                 end) in
-            _ <- chk s0 ;;
-            _ <- failOnError (SRepeatInit id) ;;
-            sfin <- rep_loop LF 0 maxInt K
-                      (fun s => r <- exec_action c_validActionTries s ;;
-                                match r with
-                                | Some s' => _ <- chk s' ;; _ <- failOnError (SRepeatCheck id) ;; ret (Some s')
-                                | None => ret None
-                                end) 0 0 false s0 ;;
+            sfin <- run_repeat id K nacts
+                      (fun s => if haschk then _ <- emit_u UChk ;; _ <- run_p (check s) ;; ret tt else ret tt)
+                      (fun i s => run_p (act i s)) s0 ;;
             run_p (k sfin)
         end
     end.
